@@ -6,6 +6,13 @@ its own time grid) and a second (grid, prices) pair.  `run_impl` saves / loads /
 and after a `setup_optim_problem` call and compares the optimisation problems built from the original
 and from the loaded object exactly (`harness.impl.problem_json`, `harness.pf.cmp_problem`, tol 0).
 
+Streams (all drawn from the seed): `gen` (portfolios of harness.gen + the kinds it does not draw: ramps, min-load
+CHP, CHP classes as plain plants with `_no_heat`, linked assets, order books from DataFrames), `dst` (grids a portfolio
+OWNS whose start / end are zone-aware time stamps at the daylight-saving switches, with and without the `timezone`
+keyword: `gen_grid_dst`), `sweep` (every constructor parameter of every class of the regenerated schema table with
+another value than its default: `sweep_groups`, `gen_case_sweep`), and the case `coverage`, which asserts that
+parameter coverage against the schema table / inspect.signature and writes every gap to the evidence.
+
 No Lean driver is involved: the model of this component is the schema table that `schema_gen.py`
 regenerates from the sources; its tie to the code is `schema_selfcheck` below (real JSON keys and real
 `inspect.signature` against the schema) — a disagreement there means the TRANSLATOR misreads the source.
@@ -28,6 +35,212 @@ from ..impl import Quiet, problem_json, err_class
 
 FORMS = ['plain', 'aware', 'array', 'index', 'ts', 'date', 'datearr']
 ZONES = ['CET', 'Europe/Berlin', 'US/Eastern', 'UTC', 'Asia/Kolkata']
+# zones with daylight saving time (northern and southern hemisphere, one with a 30 minute shift)
+DST_ZONES = ['CET', 'Europe/Berlin', 'US/Eastern', 'Europe/London', 'Australia/Sydney', 'Australia/Lord_Howe']
+
+# Known finding F-11f (zone objects): the datetime hook of the serialiser writes the NAME of a zone and restores the time
+# stamp with pandas' default zone objects (pytz).  An asset whose start / end is a datetime.datetime with a zoneinfo zone
+# and whose set-up builds a date range from the grid's start to its own end (Storage with `block_size`, any asset with a
+# coarser `freq`) can be set up on a grid whose start / end are zoneinfo datetimes before saving; the loaded asset raises
+# TypeError 'Start and end cannot both be tz-aware with different timezones' on the same grid (assets.py Storage block
+# branch, basic_classes.py Timegrid coarse branch; mirror image: original raises, loaded works, when the grid carries
+# pandas' zone objects).  The stream dst generates such cases (grid form `zi` + asset dates in form `zi`); their
+# violations carry the fact kind='zoneinfo_dates' (see `_zone_object_clash`) so that known_findings.json can name them.
+
+
+# ------------------------------------------------------------------ time grids that a portfolio owns
+_TRANS = {}
+
+
+def dst_transitions(zone, year):
+    """[(kind, utc instant of the switch as naive UTC Timestamp, shift)] of a zone in a year; kind 'fall' (clocks go
+    back: the local time span of length `shift` before the instant is repeated after it) or 'spring' (clocks go forward)"""
+    key = (zone, year)
+    if key not in _TRANS:
+        idx = pd.date_range('%d-01-01' % year, '%d-01-01' % (year + 1), freq='30min', tz='UTC')
+        off = idx.tz_convert(zone).tz_localize(None) - idx.tz_localize(None)
+        out = []
+        for i in range(1, len(idx)):
+            if off[i] != off[i - 1]:
+                d = off[i] - off[i - 1]
+                out.append(('fall' if d < pd.Timedelta(0) else 'spring', idx[i].tz_localize(None), abs(d)))
+        _TRANS[key] = out
+    return _TRANS[key]
+
+
+def _boundary(utc_iso, zone, form, off_of=None):
+    """one end of a grid from its instant (naive UTC iso) in one of the accepted forms"""
+    t = pd.Timestamp(utc_iso, tz='UTC').tz_convert(zone)
+    if form == 'ts':            # zone-aware pandas Timestamp
+        return t
+    if form == 'dt':            # zone-aware datetime.datetime (zone object of pandas' default provider)
+        return t.to_pydatetime()
+    if form == 'zi':            # datetime.datetime with a zoneinfo zone
+        import zoneinfo
+        return t.to_pydatetime().astimezone(zoneinfo.ZoneInfo(zone))
+    if form == 'off':           # fixed UTC offset (that of `off_of`, the start of the grid) as in an ISO string '...+01:00'
+        o = pd.Timestamp(off_of or utc_iso, tz='UTC').tz_convert(zone).utcoffset()
+        return pd.Timestamp(utc_iso, tz='UTC').tz_convert(dt.timezone(o))
+    if form == 'naive':         # local wall clock time (only with the `timezone` keyword)
+        return t.tz_localize(None).to_pydatetime()
+    raise ValueError(form)
+
+
+def make_grid(g):
+    """the Timegrid of a grid spec: the plain form of harness.scen (naive local start / end + `timezone` keyword), or
+    `aware`: {start_utc, end_utc, start_form, end_form, tz_kw} — start / end given as instants in a form of `_boundary`,
+    the `timezone` keyword only when tz_kw"""
+    if 'aware' in g:
+        a = g['aware']
+        return eao.Timegrid(_boundary(a['start_utc'], g['tz'], a['start_form']),
+                            _boundary(a['end_utc'], g['tz'], a['end_form'], off_of=a['start_utc']),
+                            freq=g['freq'], main_time_unit=g.get('unit', 'h'), timezone=g['tz'] if a['tz_kw'] else None)
+    return scen.make_grid(g)
+
+
+def _utc_iso(ts):
+    ts = pd.Timestamp(ts)
+    return gen.iso(ts.tz_convert('UTC').tz_localize(None) if ts.tzinfo is not None else ts)
+
+
+DST_STEPS = [('h', 3600), ('h', 3600), ('30min', 1800), ('15min', 900), ('15min', 900), ('2h', 7200), ('d', 86400)]
+
+
+def gen_grid_dst(rnd):
+    """a grid on a zone with daylight saving time whose start and / or end is a zone-aware time stamp at or next to a
+    switch: inside the repeated span when the clocks go back (first and second occurrence), at its borders, at the
+    neighbours of the gap when they go forward; with and without the `timezone` keyword; sub-daily and daily steps.
+    Returns a grid spec for `make_grid` (validated by constructing it) or None."""
+    for _ in range(12):
+        zone = rnd.choice(DST_ZONES)
+        year = rnd.choice([2021, 2021, 2022])
+        kind = rnd.choice(['fall', 'fall', 'fall', 'fall', 'spring', 'spring', 'none'])
+        if kind == 'none':       # any time of the year, also zones without daylight saving time
+            zone = rnd.choice(ZONES + DST_ZONES)
+            X, shift = pd.Timestamp('%d-01-01' % year) + pd.Timedelta(hours=rnd.randrange(0, 8700)), pd.Timedelta(hours=1)
+        else:
+            cand = [t for t in dst_transitions(zone, year) if t[0] == kind]
+            if not cand:
+                continue
+            _, X, shift = rnd.choice(cand)
+        freq, step_s = rnd.choice(DST_STEPS)
+        step = pd.Timedelta(seconds=step_s)
+        unit = rnd.choice(['h', 'h', 'd', 'min'])
+        q = pd.Timedelta(minutes=15)
+        nq = int(shift / q)                              # quarter hours in the repeated span / the gap
+        if freq == 'd':
+            # daily steps: local midnights around the switch (wall clock days of 23 / 25 h), or a start inside / next to the span
+            loc = (X.tz_localize('UTC').tz_convert(zone)).tz_localize(None)
+            if rnd.random() < 0.7:
+                s_loc = loc.normalize() - pd.Timedelta(days=rnd.randint(0, 2))
+            else:
+                s_loc = loc.floor('h') + rnd.choice([-2, -1, 0, 1]) * pd.Timedelta(hours=1)
+            T = rnd.randint(2, 4)
+            try:
+                s_aw = s_loc.tz_localize(zone, ambiguous=rnd.random() < 0.5)
+                e_aw = (s_loc + pd.Timedelta(days=T)).tz_localize(zone, ambiguous=False)
+            except Exception:
+                continue
+            su, eu = _utc_iso(s_aw), _utc_iso(e_aw)
+        else:
+            where = rnd.choice(['start', 'start', 'end', 'both'])
+            m = rnd.randint(-nq - 2, nq + 2)             # quarter hours from the switch: m < 0 before, m >= 0 after
+            if rnd.random() < 0.6 and step_s < 86400:    # mostly on multiples of the step
+                k = max(1, step_s // 900)
+                m = (m // k) * k
+            B = X + m * q
+            T = rnd.randint(2, 10)
+            if where == 'start':
+                s, e = B, B + T * step
+            elif where == 'end':
+                s, e = B - T * step, B
+            else:
+                m2 = rnd.randint(m + 1, nq + 6)
+                s, e = B, X + m2 * q
+                if rnd.random() < 0.7:                   # a whole number of steps
+                    e = s + max(1, int((e - s) / step)) * step
+            su, eu = gen.iso(s), gen.iso(e)
+        tz_kw = rnd.random() < 0.6
+        if tz_kw:
+            sf, ef = rnd.choice(['ts', 'ts', 'dt', 'naive']), rnd.choice(['ts', 'ts', 'dt', 'naive'])
+            for which, u in (('s', su), ('e', eu)):      # a wall clock time must exist once in the zone
+                if (sf if which == 's' else ef) == 'naive':
+                    try:
+                        w = pd.Timestamp(u, tz='UTC').tz_convert(zone).tz_localize(None)
+                        if w.tz_localize(zone) != pd.Timestamp(u, tz='UTC'):
+                            raise ValueError
+                    except Exception:
+                        if which == 's':
+                            sf = 'ts'
+                        else:
+                            ef = 'ts'
+        else:
+            sf = ef = rnd.choice(['ts', 'ts', 'ts', 'dt', 'zi', 'off'])
+            if sf in ('ts', 'dt') and rnd.random() < 0.3:
+                ef = 'dt' if sf == 'ts' else 'ts'
+        g = {'start': gen.iso(pd.Timestamp(su, tz='UTC').tz_convert(zone).tz_localize(None)),
+             'end': gen.iso(pd.Timestamp(eu, tz='UTC').tz_convert(zone).tz_localize(None)),
+             'freq': freq, 'unit': unit, 'tz': zone, 'step_s': step_s,
+             'aware': {'start_utc': su, 'end_utc': eu, 'start_form': sf, 'end_form': ef, 'tz_kw': tz_kw},
+             'switch': {'kind': kind, 'utc': gen.iso(X), 'shift_s': int(shift.total_seconds())}}
+        if _finish_grid(g):
+            return g
+    return None
+
+
+def _grid_points(tg):
+    """the T + 1 points of a main grid (as the Timegrid constructor computes them)"""
+    return list(pd.date_range(start=tg.start, end=tg.end, freq=tg.freq, tz=tg.tz))
+
+
+def _finish_grid(g):
+    """attach the real grid points as naive local times (what harness.gen places windows / interval data on); False if
+    pandas / eaopack do not accept the grid"""
+    try:
+        with Quiet():
+            tg = make_grid(g)
+        if tg.T < 1:
+            return False
+        g['_pts'] = [gen.iso(pd.Timestamp(p).tz_localize(None)) for p in _grid_points(tg)]
+        g['T_nominal'] = tg.T
+        return True
+    except Exception:
+        return False
+
+
+def sub_grid(g, tg, T2):
+    """the grid spec of the first T2 steps of an `aware` grid"""
+    g2 = copy.deepcopy(g)
+    g2['aware']['end_utc'] = _utc_iso(_grid_points(tg)[T2])
+    if g2['aware']['end_form'] == 'naive':
+        g2['aware']['end_form'] = 'ts' if g2['aware']['start_form'] == 'naive' else g2['aware']['start_form']
+    return g2 if _finish_grid(g2) else None
+
+
+def grid_class(g):
+    """where the ends of an `aware` grid lie relative to the switch (evidence features)"""
+    a, sw = g['aware'], g['switch']
+    X, sh = pd.Timestamp(sw['utc']), pd.Timedelta(seconds=sw['shift_s'])
+    out = []
+    if sw['kind'] == 'none':
+        return out
+    for nm, u in (('start', a['start_utc']), ('end', a['end_utc'])):
+        t = pd.Timestamp(u)
+        if sw['kind'] == 'fall':
+            if X - sh <= t < X:
+                out.append(nm + ':first-occurrence')
+            elif X <= t < X + sh:
+                out.append(nm + ':second-occurrence')
+            elif t == X + sh or (X - sh - pd.Timedelta(hours=1) <= t < X - sh):
+                out.append(nm + ':next-to-repeated-span')
+        else:
+            if t == X:
+                out.append(nm + ':just-after-gap')
+            elif X - pd.Timedelta(hours=1) <= t < X:
+                out.append(nm + ':just-before-gap')
+            elif X < t <= X + pd.Timedelta(hours=1):
+                out.append(nm + ':after-gap')
+    return out
 
 
 # ------------------------------------------------------------------ generator
@@ -62,6 +275,10 @@ def apply_form(scn, form, rnd):
         if tz is None:
             return
         _walk_args_all(scn, lambda k, v, a: _map_dt(v, lambda s: {'$ts': s, 'tz': tz}))
+    elif form == 'zi':       # datetime.datetime with a zoneinfo zone (decoded by build_case)
+        if tz is None:
+            return
+        _walk_args_all(scn, lambda k, v, a: _map_dt(v, lambda s: {'$zi': s, 'tz': tz}))
     elif form == 'ts':       # pandas Timestamps instead of datetime.datetime (naive)
         _walk_args_all(scn, lambda k, v, a: _map_dt(v, lambda s: {'$ts': s}))
     elif form == 'date':     # datetime.date for windows that fall on midnight
@@ -165,6 +382,455 @@ def storage_all_options(rnd, g, prices, T, name, nodes):
                      'wacc': rnd.choice([0.0, 0.05])}}
 
 
+def no_heat_form(rnd, a):
+    """a plant spec (nodes power[, fuel]) written as CHPAsset / CHPAsset_with_min_load_costs with `_no_heat=True`:
+    the node configurations these classes accept without heat node (one node; power + fuel node)"""
+    a['type'] = rnd.choice(['CHPAsset', 'CHPAsset_with_min_load_costs'])
+    a['args']['_no_heat'] = True
+    if a['type'] == 'CHPAsset_with_min_load_costs':
+        a['args']['min_load_threshhold'] = gen.q8(rnd, 0.5, 3)
+        a['args']['min_load_costs'] = gen.q8(rnd, 0.5, 3)
+    r = rnd.random()
+    if r < 0.3:          # heat parameters are accepted (and have no effect)
+        a['args']['conversion_factor_power_heat'] = rnd.choice([0.0, 0.5, 2.0])
+    elif r < 0.5:
+        a['args']['max_share_heat'] = rnd.choice([0.5, 1.0])
+
+
+def small_portfolio(rnd, g, T, simple=False, dates=True):
+    """a few assets of the kinds of harness.gen on a given grid spec (which carries `_pts`, `T_nominal`, `step_s`, `tz`);
+    dates=False: only kinds and options without dates (no windows, interval data, take periods, orders)"""
+    prices = {}
+    nodes = ['N1', 'N2'][:rnd.randint(1, 2)]
+    assets = [{'type': 'SimpleContract', 'name': 'mkt%d' % (j + 1), 'nodes': [n],
+               'args': {'min_cap': -40.0, 'max_cap': 40.0, 'price': gen.price_key(rnd, prices, T)}} for j, n in enumerate(nodes)]
+    kinds = ['simple', 'contract', 'storage', 'plant', 'orderbook', 'transport', 'ext_transport', 'chp_no_heat', 'scaled']
+    if not dates:
+        kinds = ['simple', 'storage', 'storage', 'plant', 'transport', 'chp_no_heat', 'scaled']
+    for _ in range(rnd.randint(1, 3)):
+        k = rnd.choice(kinds)
+        nm = '%s%d' % (k[:2], len(assets) + 1)
+        n = rnd.choice(nodes)
+        if simple:
+            a = gen.gen_simple_contract(rnd, g, prices, T, nm, n, allow_opts=False) if k != 'storage' else \
+                gen.gen_storage(rnd, g, prices, T, nm, [n], False, False)
+        elif k == 'simple':
+            a = gen.gen_simple_contract(rnd, g, prices, T, nm, n, allow_opts=dates)
+        elif k == 'contract':
+            a = gen.gen_contract(rnd, g, prices, T, nm, n)
+        elif k == 'storage':
+            a = gen.gen_storage(rnd, g, prices, T, nm, [n], allow_blocks=g['step_s'] <= 3600)
+        elif k in ('plant', 'chp_no_heat'):
+            a = gen.gen_plant(rnd, g, prices, T, nm, nodes if rnd.random() < 0.5 else [n])
+            if k == 'chp_no_heat':
+                no_heat_form(rnd, a)
+        elif k == 'orderbook':
+            a = gen.gen_orderbook(rnd, g, prices, T, nm, n)
+        elif k == 'scaled':
+            a = {'type': 'ScaledAsset', 'name': nm, 'base': gen.gen_simple_contract(rnd, g, prices, T, nm + '_b', n, allow_opts=dates),
+                 'args': {'max_scale': rnd.choice([1.0, 2.0]), 'fix_costs': gen.q8(rnd, 0, 1)}}
+        elif len(nodes) == 2:
+            a = gen.gen_transport(rnd, g, prices, T, nm, nodes[0], nodes[1], ext=(k == 'ext_transport'))
+        else:
+            a = gen.gen_simple_contract(rnd, g, prices, T, nm, n)
+        if not simple and dates and a['type'] not in ('OrderBook', 'ScaledAsset') and rnd.random() < 0.4:
+            gen.put_window(a['args'], gen.window(rnd, g, kinds=['inside', 'start_only', 'end_only', 'straddle_end', 'straddle_start', 'covering']))
+        assets.append(a)
+    return {'grid': g, 'nodes': nodes, 'prices': prices, 'assets': assets}
+
+
+def gen_case_dst(rnd, i=0):
+    """a portfolio that owns a grid of `gen_grid_dst` (some cases: one of its assets, or the portfolio without grid,
+    with that grid handed to the set-up call); the second grid is the first part of the same grid"""
+    g = gen_grid_dst(random.Random(rnd.getrandbits(48)))
+    if g is None:
+        return gen_case(rnd, i)
+    with Quiet():
+        tg = make_grid(g)
+    T = tg.T
+    case = None
+    other_zone_objects = g['aware']['start_form'] in ('zi', 'off')
+    for attempt in range(4):
+        # (grids whose start / end carry other zone objects than pandas' default ones: pandas refuses date ranges between
+        #  time stamps with different zone objects, so asset dates carry the same kind of zone object - form `zi`, known
+        #  finding F-11f - or, for fixed offsets, are absent)
+        scn = small_portfolio(random.Random(rnd.getrandbits(48)), copy.deepcopy(g), T, simple=(attempt == 3),
+                              dates=g['aware']['start_form'] != 'off')
+        if other_zone_objects:
+            form = 'zi' if g['aware']['start_form'] == 'zi' else 'plain'
+            if form == 'zi' and attempt < 3 and g['step_s'] <= 3600 and rnd.random() < 0.5:
+                # a storage with blocks and an own window: its set-up builds a date range from the grid's start to its own end
+                a = gen.gen_storage(rnd, scn['grid'], scn['prices'], T, 'stz', [scn['nodes'][0]], False, False)
+                a['args']['block_size'] = rnd.choice(['4h', '2h'])
+                gen.put_window(a['args'], gen.window(rnd, scn['grid'], kinds=['end_only', 'inside', 'start_only']))
+                scn['assets'].append(a)
+        elif not g['aware']['tz_kw']:
+            form = 'aware'          # (without `timezone` keyword the grid knows no zone to read naive dates in)
+        else:
+            form = rnd.choice(['plain', 'plain', 'aware', 'ts', 'index', 'array', 'datearr'])
+        apply_form(scn, form, rnd)
+        r = rnd.random()
+        if r < 0.75:
+            target = {'kind': 'portfolio', 'own_grid': True}
+        elif r < 0.9:
+            target = {'kind': 'asset', 'index': rnd.randrange(len(scn['assets']))}
+        else:
+            target = {'kind': 'portfolio', 'own_grid': False}
+        g2 = sub_grid(g, tg, max(1, T // 2)) or copy.deepcopy(g)
+        with Quiet():
+            T2 = make_grid(g2).T
+        prices2 = {k: [gen.q8(rnd, -4, 20) for _ in range(T2)] for k in scn['prices']}
+        case = {'scn': scn, 'form': form, 'target': target, 'grid2': g2, 'prices2': prices2, 'solve': (i % 3 == 0), 'stream': 'dst'}
+        try:
+            with Quiet():
+                build_case(case)
+            break
+        except Exception:
+            continue
+    return case
+
+
+# ------------------------------------------------------------------ every constructor parameter with a non-default value
+# parameters given through the structure of a spec (always other than the default)
+STRUCTURAL = {'name', 'nodes', 'base_asset', 'portfolio', 'assets', 'asset1_variable', 'asset2_variable'}
+# parameters that cannot occur with another value than the default in an object that is saved (each is reported in the
+# evidence as `param-exempt:<Class>.<param>`, i.e. as a coverage gap with its reason; nothing is hidden)
+EXEMPT = {
+    ('*', 'profile'): 'not implemented in eaopack: with `freq` a profile must be a pandas Series, for which every set-up raises NotImplementedError and to_json raises TypeError; without `freq` the constructor replaces it by None',
+    ('Unit', 'factor'): 'the constructor asserts factor == 1',
+    ('Timegrid', 'ref_timegrid'): 'out of scope: a Timegrid with ref_timegrid is an internal restricted view of another grid (built by set_restricted_grid), not something a user sets as a portfolio\'s grid; the serialiser does not store the reference grid',
+}
+# pairs the package does not accept together (or that make no sense together): never in the same sweep case
+CONFLICTS = [({'time_already_running'}, {'time_already_off'}),
+             ({'_no_heat'}, {'start_ramp_lower_bounds_heat', 'start_ramp_upper_bounds_heat', 'shutdown_ramp_lower_bounds_heat',
+                             'shutdown_ramp_upper_bounds_heat', 'conversion_factor_power_heat', 'max_share_heat'}),
+             ({'periodicity', 'periodicity_duration'}, {'block_size', 'max_store_duration', 'no_simult_in_out', 'start', 'end', 'freq'}),
+             ({'freq'}, {'block_size', 'max_store_duration'}),
+             ({'min_take', 'max_take'}, {'start', 'end'})]
+
+
+def exempt_reason(cls, p):
+    return EXEMPT.get((cls, p)) or EXEMPT.get(('*', p))
+
+
+def ctor_default(cls_name, p):
+    """the default python itself reports for parameter p of the constructor chain of a class (inspect.Parameter.empty: required / unknown)"""
+    import eaopack.assets as A
+    import eaopack.portfolio as P_
+    import eaopack.basic_classes as B
+    cls = getattr(A, cls_name, None) or getattr(P_, cls_name, None) or getattr(B, cls_name, None)
+    if cls is None:
+        return inspect.Parameter.empty
+    for k in cls.__mro__:
+        if '__init__' in k.__dict__:
+            ps = inspect.signature(k.__init__).parameters
+            if p in ps and ps[p].kind in (ps[p].POSITIONAL_OR_KEYWORD, ps[p].KEYWORD_ONLY):
+                return ps[p].default
+            if not any(x.kind == x.VAR_KEYWORD for x in ps.values()):
+                break
+    return inspect.Parameter.empty
+
+
+def _differs(v, d):
+    """is the (decoded) value another one than the default?"""
+    if d is inspect.Parameter.empty:
+        return True
+    scal = (int, float, bool, str, type(None))
+    if isinstance(v, scal) and isinstance(d, scal):
+        return (v is None) != (d is None) or isinstance(v, str) != isinstance(d, str) or v != d
+    if isinstance(v, (list, tuple)) and isinstance(d, (list, tuple)):
+        return len(v) != len(d) or any(_differs(x, y) for x, y in zip(v, d))
+    return True
+
+
+def case_params(case):
+    """the set of '<Class>.<param>' that occur with another value than the constructor's default in the object of a case
+    that is saved (the target asset with everything it wraps, or the portfolio with all assets, their nodes and — if it
+    owns one — its time grid)"""
+    scn, t = case['scn'], case['target']
+    out = set()
+    specs = scn['assets'] if t['kind'] == 'portfolio' else [scn['assets'][t['index']]]
+    used_nodes = set()
+    for a in scen.all_asset_specs({'assets': specs}):
+        c = a['type']
+        out.add(c + '.name')
+        if 'nodes' in a and c != 'ScaledAsset':
+            out.add(c + '.nodes')
+            used_nodes |= set(a['nodes'])
+        if 'base' in a:
+            out.add(c + '.base_asset')
+        if 'inner' in a:
+            out.add(c + '.portfolio')
+            out |= {'Portfolio.assets'}
+        for k, v in a.get('args', {}).items():
+            if _differs(scen.dec(copy.deepcopy(v)), ctor_default(c, k)):
+                out.add('%s.%s' % (c, k))
+    if t['kind'] == 'portfolio':
+        out.add('Portfolio.assets')
+        if t.get('own_grid'):
+            g = scn['grid']
+            out |= {'Timegrid.start', 'Timegrid.end'}
+            if g['freq'] != 'h':
+                out.add('Timegrid.freq')
+            if g.get('unit', 'h') != 'h':
+                out.add('Timegrid.main_time_unit')
+            if (g['aware']['tz_kw'] if 'aware' in g else g.get('tz') is not None):
+                out.add('Timegrid.timezone')
+    for n in used_nodes:
+        out.add('Node.name')
+        o = scn.get('node_opts', {}).get(n, {})
+        if o.get('commodity') is not None:
+            out.add('Node.commodity')
+        if 'unit' in o:
+            out.add('Node.unit')
+            for k, v in o['unit'].items():
+                if _differs(v, ctor_default('Unit', k)):
+                    out.add('Unit.' + k)
+    return out
+
+
+def expected_params(sch=None):
+    """every (class, parameter) of the regenerated schema table"""
+    sch = sch or the_schema()
+    return sorted('%s.%s' % (c['name'], p['name']) for c in sch.values() for p in c['params'])
+
+
+def _ok_pt(g, i):
+    t_ = gen.P(g, i)
+    return t_ if gen.ok_local(t_, g) else None
+
+
+def _mult_freq(g, mult):
+    tot = g['step_s'] * mult
+    return ('%dmin' % (tot // 60)) if tot % 3600 else ('%dh' % (tot // 3600))
+
+
+def _prov_window(ctx, a, p):
+    g, T = ctx['g'], ctx['T']
+    for i in ([1, 0, 2] if p == 'start' else [T - 1, T, T - 2]):
+        x = _ok_pt(g, i)
+        if x is not None and 0 <= i <= T:
+            a['args'][p] = gen.dtv(x)
+            return
+
+
+def _prov_ramps(ctx, a, p):
+    args = a['args']
+    args['min_cap'] = max(1.0, args.get('min_cap', 1.0) if isinstance(args.get('min_cap', 1.0), float) else 1.0)
+    lo = [0.25, 0.5]
+    kind = 'start' if p.startswith('start') else 'shutdown'
+    args.setdefault(kind + '_ramp_lower_bounds', lo if kind == 'start' else list(reversed(lo)))
+    if 'upper' in p or p.endswith('_heat'):
+        args.setdefault(kind + '_ramp_upper_bounds', [x + 0.25 for x in args[kind + '_ramp_lower_bounds']])
+    if p.endswith('_heat'):
+        args.setdefault(kind + '_ramp_lower_bounds_heat', [x / 2 for x in args[kind + '_ramp_lower_bounds']])
+        args.setdefault(kind + '_ramp_upper_bounds_heat', [x / 2 + 0.5 for x in args[kind + '_ramp_upper_bounds']])
+
+
+def _prov_periodicity(ctx, a, p):
+    g = ctx['g']
+    for mult in (2, 3, 4):
+        tot = g['step_s'] * mult
+        if tot <= 86400 and 86400 % tot == 0:
+            a['args']['periodicity'] = _mult_freq(g, mult)
+            if p == 'periodicity_duration':
+                a['args']['periodicity_duration'] = _mult_freq(g, 2 * mult)
+            return
+
+
+def _prov_no_heat(ctx, a, p):
+    a['args']['_no_heat'] = True
+    fuel = any(k in a['args'] for k in ('start_fuel', 'fuel_efficiency', 'consumption_if_on')) or \
+        any(k in ctx['musts'] for k in ('start_fuel', 'fuel_efficiency', 'consumption_if_on'))
+    a['nodes'] = a['nodes'][:1] + a['nodes'][2:3] if (fuel or ctx['rnd'].random() < 0.5) else a['nodes'][:1]
+
+
+def _num(key, lo, hi):
+    return lambda ctx, a, p: a['args'].__setitem__(key, gen.q8(ctx['rnd'], lo, hi))
+
+
+def _const(key, *vals):
+    return lambda ctx, a, p: a['args'].__setitem__(key, ctx['rnd'].choice(vals))
+
+
+def _prov_extra_costs(ctx, a, p):
+    r = ctx['rnd'].random()
+    a['args']['extra_costs'] = gen.q8(ctx['rnd'], 0.125, 2) if r < 0.6 else gen.interval_dict(ctx['rnd'], ctx['g'], 0.125, 2, full_cover=False)
+
+
+def _prov_wacc(ctx, a, p):
+    a['args']['wacc'] = ctx['rnd'].choice([0.05, 0.1])
+    if 'base' in a:
+        a['base']['args']['wacc'] = a['args']['wacc']
+
+
+def _prov_key(key, lo, hi):
+    def f(ctx, a, p):
+        k = '%s%d' % (key[:2], len(ctx['prices']))
+        ctx['prices'][k] = [gen.q8(ctx['rnd'], lo, hi) for _ in range(ctx['T'])]
+        a['args'][key] = k
+    return f
+
+
+# how a sweep case gives a parameter another value than its default (by parameter name; a parameter of the schema that has
+# no entry here is never set by the sweep and shows up as `param-gap` unless another stream draws it)
+PROVIDERS = {
+    'start': _prov_window, 'end': _prov_window, 'wacc': _prov_wacc,
+    'freq': lambda ctx, a, p: a['args'].__setitem__('freq', ctx['g']['freq']),       # (the grid's own step: accepted by every class)
+    'price': lambda ctx, a, p: a['args'].__setitem__('price', gen.price_key(ctx['rnd'], ctx['prices'], ctx['T'])),
+    'extra_costs': _prov_extra_costs, 'min_cap': _num('min_cap', 0.125, 1), 'max_cap': _num('max_cap', 2, 6),
+    'min_take': lambda ctx, a, p: a['args'].__setitem__('min_take', gen.take_dict(ctx['rnd'], ctx['g'], -30, -2) if a['type'] not in ('ExtendedTransport',) else gen.take_dict(ctx['rnd'], ctx['g'], 0, 0.5, n=1)),
+    'max_take': lambda ctx, a, p: a['args'].__setitem__('max_take', gen.take_dict(ctx['rnd'], ctx['g'], 2, 30)),
+    'periodicity': _prov_periodicity, 'periodicity_duration': _prov_periodicity,
+    # storage
+    'size': _num('size', 4, 8), 'cap_in': _num('cap_in', 0.5, 3), 'cap_out': _num('cap_out', 0.5, 3),
+    'start_level': _num('start_level', 0.125, 2), 'end_level': _num('end_level', 0.125, 2), 'cost_out': _num('cost_out', 0.125, 1),
+    'cost_in': _num('cost_in', 0.125, 1), 'cost_store': _num('cost_store', 0.125, 0.5), 'block_size': _const('block_size', '4h', '8h', 'd'),
+    'eff_in': _const('eff_in', 0.5, 0.75), 'inflow': _num('inflow', 0.125, 0.5), 'no_simult_in_out': _const('no_simult_in_out', True),
+    'max_store_duration': _const('max_store_duration', 3.0, 2.0),
+    # transport
+    'costs_const': _num('costs_const', 0.125, 2), 'costs_time_series': _prov_key('costs_time_series', 0, 2), 'efficiency': _const('efficiency', 0.5, 0.75, 1.5),
+    # plants
+    'conversion_factor_power_heat': _const('conversion_factor_power_heat', 0.5, 0.25, 2.0), 'max_share_heat': _const('max_share_heat', 0.5, 1.0, 2.0),
+    'ramp': _num('ramp', 1, 4), 'start_costs': _num('start_costs', 0.5, 4), 'running_costs': _num('running_costs', 0.125, 1),
+    'min_runtime': _const('min_runtime', 2.0, 3.0), 'time_already_running': _const('time_already_running', 1.0, 2.0),
+    'min_downtime': _const('min_downtime', 1.0), 'time_already_off': _const('time_already_off', 1.0, 2.0), 'last_dispatch': _num('last_dispatch', 0.125, 2),
+    'start_ramp_lower_bounds': _prov_ramps, 'start_ramp_upper_bounds': _prov_ramps, 'shutdown_ramp_lower_bounds': _prov_ramps,
+    'shutdown_ramp_upper_bounds': _prov_ramps, 'start_ramp_lower_bounds_heat': _prov_ramps, 'start_ramp_upper_bounds_heat': _prov_ramps,
+    'shutdown_ramp_lower_bounds_heat': _prov_ramps, 'shutdown_ramp_upper_bounds_heat': _prov_ramps,
+    'ramp_freq': lambda ctx, a, p: (_prov_ramps(ctx, a, 'start_ramp_lower_bounds'), a['args'].__setitem__('ramp_freq', ctx['rnd'].choice(['h', '2h', '30min']))),
+    'start_fuel': _num('start_fuel', 0.5, 2), 'fuel_efficiency': _const('fuel_efficiency', 0.5, 0.25, 0.8), 'consumption_if_on': _num('consumption_if_on', 0.125, 1),
+    '_no_heat': _prov_no_heat,
+    'min_load_threshhold': _num('min_load_threshhold', 0.5, 3), 'min_load_costs': _num('min_load_costs', 0.5, 3),
+    'factors_commodities': lambda ctx, a, p: a['args'].__setitem__('factors_commodities', [ctx['rnd'].choice([0.5, -1.0, 2.0, 0.25]) for _ in a['nodes']]),
+    # scaled
+    'min_scale': _const('min_scale', 0.5, 0.25), 'max_scale': _const('max_scale', 2.0, 4.0), 'norm_scale': _const('norm_scale', 2.0, 0.5), 'fix_costs': _num('fix_costs', 0.125, 1),
+    # order book
+    'orders': lambda ctx, a, p: None, 'full_exec': _const('full_exec', True),
+    # linked
+    'asset2_time_already_running': _const('asset2_time_already_running', 2.0, 1.0), 'time_back': _const('time_back', 2, 0), 'time_forward': _const('time_forward', 1, 2),
+}
+
+
+def sweep_base(cls, ctx):
+    """a small valid spec of a class on the nodes N1..N3 (the sweep then adds the parameters of its group)"""
+    rnd, g, prices, T = ctx['rnd'], ctx['g'], ctx['prices'], ctx['T']
+    if cls in ('Asset', 'SimpleContract', 'Contract'):
+        return {'type': cls, 'name': 'x', 'nodes': ['N1'], 'args': {} if cls == 'Asset' else {'min_cap': -1.0, 'max_cap': 2.0}}
+    if cls in ('Transport', 'ExtendedTransport'):
+        return {'type': cls, 'name': 'x', 'nodes': ['N1', 'N2'], 'args': {'min_cap': 0.0, 'max_cap': 2.0}}
+    if cls == 'Storage':
+        return {'type': cls, 'name': 'x', 'nodes': ['N1'] if rnd.random() < 0.6 else ['N1', 'N2'], 'args': {'size': 4.0, 'cap_in': 1.0, 'cap_out': 1.5}}
+    if cls == 'MultiCommodityContract':
+        return {'type': cls, 'name': 'x', 'nodes': ['N1', 'N2'], 'args': {'min_cap': -1.0, 'max_cap': 2.0, 'factors_commodities': [1.0, 0.5]}}
+    if cls in ('CHPAsset', 'CHPAsset_with_min_load_costs'):
+        a = {'type': cls, 'name': 'x', 'nodes': ['N1', 'N2', 'N3'], 'args': {'min_cap': 1.0, 'max_cap': 4.0, 'price': gen.price_key(rnd, prices, T)}}
+        if cls != 'CHPAsset':
+            a['args'].update({'min_load_threshhold': 2.0, 'min_load_costs': 1.0})
+        return a
+    if cls == 'Plant':
+        return {'type': cls, 'name': 'x', 'nodes': ['N1', 'N2'], 'args': {'min_cap': 1.0, 'max_cap': 4.0, 'price': gen.price_key(rnd, prices, T)}}
+    if cls == 'OrderBook':
+        return gen.gen_orderbook(rnd, g, prices, T, 'x', 'N1', allow_mip=False)
+    if cls == 'ScaledAsset':
+        return {'type': cls, 'name': 'x', 'base': {'type': 'SimpleContract', 'name': 'x_b', 'nodes': ['N1'], 'args': {'min_cap': -1.0, 'max_cap': 2.0, 'extra_costs': 0.5}}, 'args': {}}
+    if cls == 'StructuredAsset':
+        inner = [{'type': 'Transport', 'name': 'x_tr', 'nodes': ['x_i1', 'N1'], 'args': {'min_cap': 0.0, 'max_cap': 2.0}},
+                 {'type': 'SimpleContract', 'name': 'x_c', 'nodes': ['x_i1'], 'args': {'min_cap': 0.0, 'max_cap': 3.0, 'extra_costs': 1.0}}]
+        return {'type': cls, 'name': 'x', 'nodes': ['N1'], 'inner': inner, 'inner_nodes': ['x_i1'], 'args': {}}
+    if cls == 'LinkedAsset':
+        inner = [{'type': 'CHPAsset', 'name': 'lk_a', 'nodes': ['N1', 'N2'], 'args': {'min_cap': 1.0, 'max_cap': 4.0, 'extra_costs': 2.0}},
+                 {'type': 'CHPAsset', 'name': 'lk_b', 'nodes': ['N1', 'N2'], 'args': {'min_cap': 1.0, 'max_cap': 5.0, 'extra_costs': 1.0}}]
+        return {'type': cls, 'name': 'x', 'nodes': ['N1', 'N2'], 'inner': inner,
+                'args': {'asset1_variable': ['lk_b', 'disp', 'N1'], 'asset2_variable': ['lk_a', 'bool_on', None]}}
+    return None
+
+
+def sweep_groups(sch=None, size=5):
+    """[(class, [params])]: the parameters of every asset class of the schema table that are not given through the
+    structure of a spec, packed into groups that avoid the CONFLICTS; each parameter is in exactly one group"""
+    sch = sch or the_schema()
+    out = []
+    for c in sch.values():
+        if c['name'] in ('Unit', 'Node', 'Timegrid', 'Portfolio'):
+            continue
+        groups = []
+        for p in [p['name'] for p in c['params']]:
+            if p in STRUCTURAL or exempt_reason(c['name'], p):
+                continue
+            for gr in groups:
+                if len(gr) < size and not any((p in x and gr & y) or (p in y and gr & x) for x, y in CONFLICTS):
+                    gr.add(p)
+                    break
+            else:
+                groups.append({p})
+        out += [(c['name'], sorted(gr)) for gr in groups]
+    return out
+
+
+def gen_case_sweep(rnd, cls, musts, i=0):
+    """one asset of class `cls` in which every parameter of `musts` has another value than its default, inside a small
+    portfolio with markets; nodes with commodity / unit; target: the asset or the portfolio (with own grid)"""
+    g = gen.gen_grid(random.Random(rnd.getrandbits(48)), tmin=4, tmax=8, tz_prob=0.3,
+                     grids=[x for x in gen.GRIDS if x[2] <= pd.Timedelta(hours=2)])
+    T = scen.make_grid(g).T
+    prices = {}
+    nodes = ['N1', 'N2', 'N3']
+    ctx = {'rnd': rnd, 'g': g, 'prices': prices, 'T': T, 'musts': musts}
+    assets = [{'type': 'SimpleContract', 'name': 'mkt%d' % (j + 1), 'nodes': [n],
+               'args': {'min_cap': -40.0, 'max_cap': 40.0, 'price': gen.price_key(rnd, prices, T)}} for j, n in enumerate(nodes)]
+    a = sweep_base(cls, ctx)
+    if a is None:
+        return None
+    for p_ in musts:
+        f = PROVIDERS.get(p_)
+        if f is not None:
+            f(ctx, a, p_)
+    if a['args'].get('min_downtime', 0) > 1 and not (a['args'].get('time_already_off') or a['args'].get('time_already_running')):
+        a['args']['time_already_off'] = 1.0
+    if any(k.endswith('_heat') and 'ramp' in k for k in a['args']):
+        for kind in ('start', 'shutdown'):      # heat ramps for every power ramp that is given (the package expects both or none)
+            if kind + '_ramp_lower_bounds' in a['args']:
+                _prov_ramps(ctx, a, kind + '_ramp_upper_bounds_heat')
+    assets.append(a)
+    node_opts = {'N2': {'commodity': rnd.choice(['heat', 'gas'])},
+                 'N3': {'commodity': 'gas', 'unit': {'volume': rnd.choice(['MJ', 'm3']), 'flow': rnd.choice(['MJ/h', 'kW'])}}}
+    if rnd.random() < 0.5:
+        node_opts['N1'] = {'unit': {'volume': 'kWh', 'flow': 'kW'}}
+    scn = {'grid': g, 'nodes': nodes + a.get('inner_nodes', []), 'node_opts': node_opts, 'prices': prices, 'assets': assets}
+    form = rnd.choice(['plain', 'plain', 'aware', 'ts', 'array', 'index'])
+    apply_form(scn, form, rnd)
+    target = {'kind': 'asset', 'index': len(assets) - 1} if i % 3 else {'kind': 'portfolio', 'own_grid': True}
+    case = {'scn': scn, 'form': form, 'target': target, 'solve': False, 'stream': 'sweep', 'sweep': {'class': cls, 'params': list(musts)}}
+    _second_grid(case, rnd)
+    return case
+
+
+def _second_grid(case, rnd):
+    """a second grid (first part of the horizon) with its own prices"""
+    scn = case['scn']
+    g = scn['grid']
+    T = len(g['_pts']) - 1
+    g2 = None
+    for T2 in [max(1, T // 2), max(1, T // 2) + 1, max(1, T // 2) - 1, T]:
+        if not (1 <= T2 <= T):
+            continue
+        cand = dict(g)
+        cand['end'] = g['_pts'][T2]
+        try:                    # (a local end point may be ambiguous / missing on a DST day)
+            gen.fix_grid(cand)
+            scen.make_grid(cand)
+            g2 = cand
+            break
+        except Exception:
+            continue
+    if g2 is None:
+        g2 = dict(g)
+    T2r = scen.make_grid(g2).T
+    case['grid2'] = g2
+    case['prices2'] = {k: [gen.q8(rnd, -4, 20) for _ in range(T2r)] for k in scn['prices']}
+
+
 def gen_case(rnd, i=0):
     """one C11 case"""
     kind_sets = [None, ['simple', 'contract', 'ext_transport', 'multi'], ['plant', 'chp'], ['storage', 'storage2', 'orderbook'],
@@ -184,6 +850,8 @@ def gen_case(rnd, i=0):
             a['type'] = 'CHPAsset_with_min_load_costs'
             a['args']['min_load_threshhold'] = gen.q8(rnd, 0.5, 3)
             a['args']['min_load_costs'] = gen.q8(rnd, 0.5, 3)
+        if a['type'] == 'Plant' and rnd.random() < 0.3:
+            no_heat_form(rnd, a)
         if a['type'] == 'OrderBook' and rnd.random() < 0.5:
             a['df_orders'] = True
         if a['type'] == 'ScaledAsset' and rnd.random() < 0.6:
@@ -211,25 +879,9 @@ def gen_case(rnd, i=0):
         target = {'kind': 'portfolio', 'own_grid': False}
     else:
         target = {'kind': 'portfolio', 'own_grid': True}
-    # a second grid (first part of the horizon) with its own prices
-    g2 = None
-    for T2 in [max(1, T // 2), max(1, T // 2) + 1, max(1, T // 2) - 1, T]:
-        if not (1 <= T2 <= T):
-            continue
-        cand = dict(g)
-        cand['end'] = g['_pts'][T2]
-        try:                    # (a local end point may be ambiguous / missing on a DST day)
-            gen.fix_grid(cand)
-            scen.make_grid(cand)
-            g2 = cand
-            break
-        except Exception:
-            continue
-    if g2 is None:
-        g2 = dict(g)
-    T2r = scen.make_grid(g2).T
-    prices2 = {k: [gen.q8(rnd, -4, 20) for _ in range(T2r)] for k in scn['prices']}
-    return {'scn': scn, 'form': form, 'target': target, 'grid2': g2, 'prices2': prices2, 'solve': (i % 5 == 4)}
+    case = {'scn': scn, 'form': form, 'target': target, 'solve': (i % 5 == 4)}
+    _second_grid(case, rnd)
+    return case
 
 
 # ------------------------------------------------------------------ building
@@ -240,12 +892,35 @@ def _patch_df_orders(spec, obj):
     return obj
 
 
+def make_nodes(scn):
+    """nodes of a scenario; `node_opts`: {name: {commodity, unit: {volume, flow, factor}}} for other than default nodes"""
+    out = {}
+    for n in scn['nodes']:
+        o = dict(scn.get('node_opts', {}).get(n, {}))
+        if 'unit' in o:
+            o['unit'] = eao.Unit(**o['unit'])
+        out[n] = eao.Node(n, **o)
+    return out
+
+
+def _pre_dec(v):
+    """forms harness.scen does not decode: {'$zi': iso, 'tz': zone} -> datetime.datetime with a zoneinfo zone"""
+    if isinstance(v, dict):
+        if '$zi' in v:
+            import zoneinfo
+            return pd.Timestamp(v['$zi']).to_pydatetime().replace(tzinfo=zoneinfo.ZoneInfo(v['tz']))
+        return {k: _pre_dec(x) for k, x in v.items()}
+    if isinstance(v, list):
+        return [_pre_dec(x) for x in v]
+    return v
+
+
 def build_case(case):
     scn = case['scn']
-    tg = scen.make_grid(scn['grid'])
-    nodes = scen.make_nodes(scn['nodes'])
+    tg = make_grid(scn['grid'])
+    nodes = make_nodes(scn)
     assets = []
-    for s in scn['assets']:
+    for s in (_pre_dec(scn['assets']) if case.get('form') == 'zi' else scn['assets']):
         if s['type'] == 'LinkedAsset':
             inner = [scen.build_asset(x, nodes) for x in s['inner']]
             args = scen.dec(copy.deepcopy(s['args']))
@@ -256,7 +931,7 @@ def build_case(case):
         else:
             assets.append(_patch_df_orders(s, scen.build_asset(s, nodes)))
     prices = {k: np.asarray(v, dtype=float) for k, v in scn.get('prices', {}).items()}
-    tg2 = scen.make_grid(case['grid2'])
+    tg2 = make_grid(case['grid2'])
     prices2 = {k: np.asarray(v, dtype=float) for k, v in case['prices2'].items()}
     portf = Portfolio(assets)
     t = case['target']
@@ -281,7 +956,17 @@ def _setup(obj, prices, tg):
             op = obj.setup_optim_problem(prices, tg) if tg is not None else obj.setup_optim_problem(prices)
         return 'ok', problem_json(op), op
     except Exception as e:
-        return 'err', err_class(e), None
+        return 'err', err_class(e), '%s: %s' % (type(e).__name__, e)
+
+
+def _zone_object_clash(case, a, b):
+    """known finding F-11f: the case has asset dates with zoneinfo zones on a grid given by zoneinfo datetimes, exactly one
+    of original / loaded object fails to set up, and it fails with pandas' refusal of two zone objects"""
+    g = case['scn']['grid']
+    if not (case.get('form') == 'zi' and g.get('aware', {}).get('start_form') == 'zi' and '"$zi"' in json.dumps(case['scn']['assets'])):
+        return False
+    errs = [x for x in (a, b) if x[0] == 'err']
+    return len(errs) == 1 and errs[0][1] == 'type' and 'cannot both be tz-aware with different timezones' in str(errs[0][2])
 
 
 def _first_diff(a, b, path=''):
@@ -306,6 +991,24 @@ def _first_diff(a, b, path=''):
                 return d
         return None
     return None if a == b else '%s: %r vs %r' % (path, a, b)
+
+
+def _instant(x):
+    """(UTC nanoseconds | wall clock nanoseconds of a naive time, zone name | None)"""
+    x = pd.Timestamp(x)
+    if x.tzinfo is None:
+        return ('naive', int(x.value), None)
+    return ('aware', int(x.tz_convert('UTC').value), str(x.tzinfo))
+
+
+def grid_facts(tg):
+    """what 'the same time points and time zone' is decided on: the points as instants AND as local times with their
+    UTC offset, the zone of the points AND the grid's `tz` attribute, start / end, step lengths"""
+    tp = pd.DatetimeIndex(tg.timepoints)
+    return {'tz_kw': None if tg.tz is None else str(tg.tz), 'zone': None if tp.tz is None else str(tp.tz), 'T': int(tg.T),
+            'instants': [_instant(x)[:2] for x in tp], 'rendered': [str(x) for x in tp],
+            'start': _instant(tg.start), 'end': _instant(tg.end),
+            'dt': [float(x) for x in tg.dt], 'Dt': [float(x) for x in tg.Dt], 'unit': tg.main_time_unit, 'freq': tg.freq}
 
 
 def _strip_pf_grid(r):
@@ -336,6 +1039,22 @@ def run_impl(case):
     if cls == 'Portfolio':
         feats.append('own-grid' if t['own_grid'] else 'no-grid')
         feats += ['asset:' + a['type'] for a in scn['assets']]
+    if case.get('stream'):
+        facts0['stream'] = case['stream']
+        feats.append('stream:' + case['stream'])
+    if 'aware' in scn['grid']:
+        ga = scn['grid']['aware']
+        own = cls == 'Portfolio' and t['own_grid']
+        facts0['grid'] = {'zone': scn['grid']['tz'], 'freq': scn['grid']['freq'], 'tz_kw': ga['tz_kw'], 'forms': [ga['start_form'], ga['end_form']],
+                          'where': grid_class(scn['grid']), 'own': own}
+        pre = 'own-grid:' if own else 'grid-arg:'
+        feats += [pre + x for x in grid_class(scn['grid'])]
+        feats += [pre + ('timezone-keyword' if ga['tz_kw'] else 'zone-only-from-aware-start-end'), pre + 'freq:' + scn['grid']['freq'],
+                  pre + 'zone:' + scn['grid']['tz'], pre + 'switch:' + scn['grid']['switch']['kind']]
+        feats += sorted({pre + 'form:' + ga['start_form'], pre + 'form:' + ga['end_form']})
+    for a in scen.all_asset_specs(scn) if cls == 'Portfolio' else scen.all_asset_specs({'assets': [spec]}):
+        if a.get('args', {}).get('_no_heat'):
+            feats.append('no-heat:%s:%d-node%s' % (a['type'], len(a['nodes']), 's' if len(a['nodes']) > 1 else ''))
 
     def viol(oracle, detail, **kw):
         f = dict(facts0)
@@ -390,19 +1109,28 @@ def run_impl(case):
             if g2 is None:
                 viol('c11-grid', 'loaded portfolio has no time grid', phase=phase)
             else:
-                if str(g1.tz) != str(g2.tz):
-                    viol('c11-grid', 'time zone %s became %s' % (g1.tz, g2.tz), phase=phase)
-                p1 = [int(pd.Timestamp(x).value) if pd.Timestamp(x).tzinfo is None else int(pd.Timestamp(x).tz_convert('UTC').value) for x in g1.timepoints]
-                p2 = [int(pd.Timestamp(x).value) if pd.Timestamp(x).tzinfo is None else int(pd.Timestamp(x).tz_convert('UTC').value) for x in g2.timepoints]
-                if p1 != p2 or [str(x) for x in g1.timepoints] != [str(x) for x in g2.timepoints]:
-                    viol('c11-grid', 'time points differ (%d vs %d points)' % (len(p1), len(p2)), phase=phase)
-                if list(g1.dt) != list(g2.dt) or g1.main_time_unit != g2.main_time_unit or g1.freq != g2.freq:
-                    viol('c11-grid', 'step lengths / unit / freq differ', phase=phase)
+                f1, f2 = grid_facts(g1), grid_facts(g2)
+                for what, key in (('`tz` attribute (the timezone keyword)', 'tz_kw'), ('zone of the time points', 'zone'),
+                                  ('number of steps T', 'T'), ('time points as instants (UTC)', 'instants'),
+                                  ('time points as written with UTC offset', 'rendered'),
+                                  ('start (instant, zone)', 'start'), ('end (instant, zone)', 'end'),
+                                  ('step lengths dt', 'dt'), ('cumulated durations Dt', 'Dt'),
+                                  ('main_time_unit', 'unit'), ('freq', 'freq')):
+                    if f1[key] != f2[key]:
+                        a_, b_ = f1[key], f2[key]
+                        if isinstance(a_, list):
+                            j = next((j for j in range(min(len(a_), len(b_))) if a_[j] != b_[j]), min(len(a_), len(b_)))
+                            a_, b_ = ('%d values, [%d]=%s' % (len(a_), j, a_[j] if j < len(a_) else '-'),
+                                      '%d values, [%d]=%s' % (len(b_), j, b_[j] if j < len(b_) else '-'))
+                        viol('c11-grid', "the portfolio's own grid changed: %s: %s before saving, %s after loading (first point %s vs %s)" % (
+                            what, a_, b_, f1['rendered'][:1], f2['rendered'][:1]), phase=phase, grid_field=key)
+                        break
                 own_prices = variants[0][1]     # (the after-setup phase starts with a set-up on variant 0)
                 a = _setup(obj, own_prices, None)
                 b = _setup(obj2, own_prices, None)
+                zk = {'kind': 'zoneinfo_dates'} if _zone_object_clash(case, a, b) else {}
                 if a[0] == 'ok' and b[0] != 'ok':
-                    viol('c11-grid', 'original can be set up on its own grid, loaded portfolio raises %s' % b[1], phase=phase)
+                    viol('c11-grid', 'original can be set up on its own grid, loaded portfolio raises %s' % b[1], phase=phase, **zk)
                 elif a[0] == 'ok':
                     d = pf.cmp_problem('loaded-vs-original', b[1], a[1], tol=0)
                     if d:
@@ -416,14 +1144,17 @@ def run_impl(case):
                             elif abs(ra.value - rb.value) > 1e-6 * max(1.0, abs(ra.value)):
                                 viol('c11-optimise', 'optimal value %r (original) vs %r (loaded)' % (ra.value, rb.value), phase=phase)
                 elif a[0] != b[0] or a[1] != b[1]:
-                    viol('c11-problem', 'own grid: original %s, loaded %s' % (a[:2], b[:2]), phase=phase)
+                    viol('c11-problem', 'own grid: original %s, loaded %s' % (a[:2], b[:2]), phase=phase, **zk)
         # (ii) identical optimisation problem for two (grid, prices) pairs
         for vi, (tg, prices) in enumerate(variants):
             a = _setup(obj, prices, tg)
             b = _setup(obj2, prices, tg)
             if a[0] != b[0]:
+                zk = {'kind': 'zoneinfo_dates'} if _zone_object_clash(case, a, b) else {}
                 viol('c11-problem', 'variant %d: original set-up %s (%s), loaded set-up %s (%s)' % (
-                    vi, a[0], a[1] if a[0] == 'err' else '', b[0], b[1] if b[0] == 'err' else ''), phase=phase, variant=vi)
+                    vi, a[0], a[1] if a[0] == 'err' else '', b[0], b[1] if b[0] == 'err' else ''), phase=phase, variant=vi, **zk)
+                if zk:
+                    feats.append('zoneinfo-dates:zone-object-clash')
             elif a[0] == 'ok':
                 d = pf.cmp_problem('loaded-vs-original', b[1], a[1], tol=0)
                 if d:
@@ -772,15 +1503,61 @@ def schema_report(timeout=300):
 def scenarios(seed, tier):
     n = 400 if tier == 'quick' else 2400
     rnd = random.Random(seed * 104729 + 11)
+    covered = set()
+
+    def emit(cid, case):
+        covered.update(case_params(case))
+        return cid, case
     for i in range(n):
-        yield 'gen%d' % i, gen_case(random.Random(rnd.getrandbits(48)), i)
+        yield emit('gen%d' % i, gen_case(random.Random(rnd.getrandbits(48)), i))
     for j in range(3 if tier == 'quick' else 10):
         yield 'codec%d' % j, {'codec': True, 'seed': rnd.getrandbits(32), 'n': 100}
+    # (the streams below draw from their own generator so that the cases above stay the same for a seed)
+    rnd = random.Random(seed * 7919 + 1109)
+    # portfolio-owned grids on zones with daylight saving time: zone-aware start / end at the switches
+    for i in range(120 if tier == 'quick' else 720):
+        yield emit('dst%d' % i, gen_case_dst(random.Random(rnd.getrandbits(48)), i))
+    # every constructor parameter of every class of the regenerated table with another value than its default
+    groups = sweep_groups()
+    for rep in range(2 if tier == 'quick' else 6):
+        for j, (cls, musts) in enumerate(groups):
+            case = gen_case_sweep(random.Random(rnd.getrandbits(48)), cls, musts, j + rep)
+            if case is not None:
+                yield emit('sweep%d_%d' % (rep, j), case)
+    yield 'coverage', {'coverage': True, 'covered': sorted(covered)}
+
+
+def coverage_case(case):
+    """the parameters of the regenerated schema table (cross-checked with inspect.signature) against the set of
+    '<Class>.<param>' that the generated cases of this run give another value than the default.  A parameter that is never
+    exercised is a COVERAGE GAP: written to the evidence (feature `param-gap:` / `param-exempt:`) and printed; it is not a
+    violation."""
+    r = {'evaluated': 1, 'nontrivial': True, 'features': [], 'disagreements': [], 'violations': []}
+    sch = the_schema()
+    r['disagreements'] += check_signatures(sch)
+    exp = expected_params(sch)
+    cov = set(case['covered'])
+    gaps, exempt = [], []
+    for x in exp:
+        if x in cov:
+            continue
+        c, p_ = x.split('.', 1)
+        (exempt if exempt_reason(c, p_) else gaps).append(x)
+    r['features'].append('param-coverage:%d-of-%d-parameters-with-a-non-default-value' % (len(exp) - len(gaps) - len(exempt), len(exp)))
+    r['features'] += ['param-gap:' + x for x in gaps] + ['param-exempt:' + x for x in exempt]
+    if not gaps:
+        r['features'].append('param-coverage:no-gap-besides-the-exempt')
+    for x in gaps:
+        print('COVERAGE-GAP property=C11 parameter=%s never generated with another value than its default' % x)
+    r['observed'] = {'gaps': gaps, 'exempt': {x: exempt_reason(*x.split('.', 1)) for x in exempt}}
+    return r
 
 
 def run_case(case, drv=None):
     """one case through oracle + translator self-check, in the result format of harness.core"""
     r = {'evaluated': 1, 'nontrivial': False, 'features': [], 'disagreements': [], 'violations': []}
+    if case.get('coverage'):
+        return coverage_case(case)
     if case.get('codec'):
         rnd = random.Random(case['seed'])
         for _ in range(case['n']):
@@ -795,6 +1572,8 @@ def run_case(case, drv=None):
     r['nontrivial'] = res['nontrivial']
     r['features'] = res['features']
     r['violations'] = res['violations']
+    if res['nontrivial']:       # (the object was built, saved and loaded)
+        r['features'] += ['param:' + x for x in sorted(case_params(case))]
     d, seen = schema_selfcheck(case)
     r['disagreements'] = d
     r['features'] += ['schema-class:' + c for c in sorted(set(seen))]
@@ -803,7 +1582,8 @@ def run_case(case, drv=None):
 
 # ------------------------------------------------------------------ self-test
 def selftest(n=200, seed=1, drv=None, verbose=False):
-    """n generated cases through the oracle and the translator self-check, 3n codec values.
+    """n generated cases, n/3 cases of the stream dst and one sweep over all constructor parameters through the oracle
+    and the translator self-check, the parameter coverage, 3n codec values.
     `drv` is accepted for uniformity with the other components and not used."""
     rnd = random.Random(seed)
     res = {'cases': 0, 'nontrivial': 0, 'violations': [], 'known': 0, 'disagreements': [], 'classes_seen': {},
@@ -817,8 +1597,12 @@ def selftest(n=200, seed=1, drv=None, verbose=False):
         res['classes_seen'][c['name']] = res['classes_seen'].get(c['name'], 0) + 1
         if ser.to_json(ser.load_from_json(ser.to_json(o))) != ser.to_json(o):
             res['violations'].append(('static', {'oracle': 'c11-resave', 'detail': type(o).__name__, 'facts': {'class': type(o).__name__}}))
-    for i in range(n):
-        case = gen_case(random.Random(rnd.getrandbits(48)), i)
+    cases = [gen_case(random.Random(rnd.getrandbits(48)), i) for i in range(n)]
+    cases += [gen_case_dst(random.Random(rnd.getrandbits(48)), i) for i in range(n // 3)]
+    cases += [c for c in (gen_case_sweep(random.Random(rnd.getrandbits(48)), cls, musts, j) for j, (cls, musts) in enumerate(sweep_groups())) if c]
+    covered = set()
+    for i, case in enumerate(cases):
+        covered |= case_params(case)
         r = run_impl(case)
         res['cases'] += 1
         res['nontrivial'] += bool(r['nontrivial'])
@@ -838,6 +1622,9 @@ def selftest(n=200, seed=1, drv=None, verbose=False):
             res['disagreements'].append((i, x))
             if verbose:
                 print('DISAGREEMENT case', i, x)
+    cov = coverage_case({'coverage': True, 'covered': sorted(covered)})
+    res['disagreements'] += [('coverage', x) for x in cov['disagreements']]
+    res['coverage'] = [f for f in cov['features'] if f.startswith('param-')]
     for j in range(3 * n):
         v, d = codec_case(rnd)
         res['codec_values'] += 1
